@@ -45,6 +45,11 @@ func (bi *BnInt) setHexString(s string) error {
 		return fmt.Errorf("arg failed")
 	}
 	buf := s[len(PREFIX):]
+	if len(buf) > 0 && (buf[0] == '-' || buf[0] == '+') {
+		// a signed number is not the hex form of a scalar (Serialize would drop the sign)
+		bi.v.SetInt64(0)
+		return fmt.Errorf("arg failed")
+	}
 	if _, ok := bi.v.SetString(buf[:], 16); !ok {
 		// nothing, or something that is not a hex number: the value must not keep what it held before
 		bi.v.SetInt64(0)
